@@ -85,7 +85,7 @@ def sequence(rng, Rm):
 
 def generate(ctx):
     rng = ctx.rng
-    n = ctx.scaled({"quick": 600, "thorough": 9600}[ctx.tier])
+    n = ctx.scaled({"quick": 600, "thorough": 6400}[ctx.tier])
     for i in range(n):
         ap = params(rng)
         seq = sequence(rng, ap["R_m"])
